@@ -45,12 +45,33 @@ fn build_pool(ctx: &mut Ctx, n_rules: usize, n_data: usize) -> Vec<(Value, Value
         rules.push(g.rule(&mut ctx.rng, &d, 3, 3));
     }
     let mut pool = Vec::new();
+    // hot coercion pairs (the first 16 of the pool are hammered by every thread): long numeric
+    // strings that equal / almost equal a number, so that any shared scratch state in the
+    // string-to-number path (a memo, a reused buffer) mixes up different strings
+    if !small_pool(n_rules) {
+        for k in 0..12u64 {
+            let n = 1_000_000_007u64 + k * 252;
+            let s_eq = n.to_string();
+            let s_ne = format!("{}x", n);
+            let s_pad = format!(" {}.0 ", n);
+            pool.push((json!({"==": [{"var": "s"}, n]}), json!({ "s": s_eq })));
+            match k % 3 {
+                0 => pool.push((json!({"==": [{"var": "s"}, n]}), json!({ "s": s_ne }))),
+                1 => pool.push((json!({"<=": [{"var": "s"}, n]}), json!({ "s": s_pad }))),
+                _ => pool.push((json!({"-": [{"var": "s"}, 7]}), json!({ "s": s_eq }))),
+            }
+        }
+    }
     for r in rules.iter() {
         for d in datas.iter() {
             pool.push((r.clone(), d.clone()));
         }
     }
     pool
+}
+
+fn small_pool(n_rules: usize) -> bool {
+    n_rules <= 8
 }
 
 struct Isolated {
@@ -171,7 +192,7 @@ pub fn c17(ctx: &mut Ctx) {
                 barrier.wait();
                 for _ in 0..calls_per_thread {
                     // few "hot" pairs so that threads collide on the same shared values
-                    let i = if rng.chance(1, 2) { rng.below(8.min(shared.len())) } else { rng.below(shared.len()) };
+                    let i = if rng.chance(1, 2) { rng.below(24.min(shared.len())) } else { rng.below(shared.len()) };
                     let (r, d) = &shared[i];
                     let out = observe::call(r, d);
                     let s = seq.fetch_add(1, Ordering::SeqCst);
